@@ -47,10 +47,17 @@ static void * worker(void * p) {
 		if (it.thread != tid) continue;
 		if (tid >= 0) { int r = rnd() % 8; if (r == 0) sched_yield(); else if (r == 1) usleep(rnd() % 300); }
 		if (active.fetch_add(1) > 0) overlapped++;
-		DString * r = mmd_string_convert_to_data(DOCS[it.doc].c_str(), it.ext, it.fmt, it.lang, fixture.empty() ? NULL : fixture.c_str());
+		// the other public text entry points run on the threads as well: the CLI's text-level CriticMarkup pass before a conversion with
+		// --accept / --reject, and the metadata queries
+		DString * src = d_string_new(DOCS[it.doc].c_str());
+		if (it.ext & EXT_CRITIC_ACCEPT) mmd_critic_markup_accept(src); else if (it.ext & EXT_CRITIC_REJECT) mmd_critic_markup_reject(src);
+		DString * r = mmd_string_convert_to_data(src->str, it.ext, it.fmt, it.lang, fixture.empty() ? NULL : fixture.c_str());
+		std::string extra;
+		if (it.line % 3 == 0 && (it.fmt == FORMAT_HTML || it.fmt == FORMAT_LATEX || it.fmt == FORMAT_OPML)) { char * k = mmd_string_metadata_keys(src->str); if (k) { extra += k; free(k); } char * v = mmd_string_metavalue_for_key(src->str, "title"); if (v) { extra += v; free(v); } }
+		d_string_free(src, true);
 		active.fetch_sub(1);
-		uint32_t ln = it.line, len = r ? r->currentStringLength : 0;
-		fwrite(&ln, 4, 1, f); fwrite(&len, 4, 1, f); if (len) fwrite(r->str, 1, len, f);
+		uint32_t ln = it.line, len = (r ? r->currentStringLength : 0) + extra.size();
+		fwrite(&ln, 4, 1, f); fwrite(&len, 4, 1, f); if (r && r->currentStringLength) fwrite(r->str, 1, r->currentStringLength, f); if (!extra.empty()) fwrite(extra.data(), 1, extra.size(), f);
 		if (r) d_string_free(r, true);
 	}
 	fclose(f);
